@@ -33,7 +33,10 @@ Inductive api :=
 | AFlush (sz : N) (ff : flush_fault)
 | ASync (sz : N) (ff : flush_fault) (sync_ok : bool)
 | AClose (sz : N) (ff : flush_fault) (sync_ok : bool)
-| AOpen.                                               (* NewFileWriter[WithName] *)
+| AOpen                                                (* NewFileWriter[WithName] *)
+| AOpenFail (truncated : bool).  (* opening an existing file failed while cutting its torn tail
+                                    off: the ftruncate failed (false) or it succeeded and the
+                                    fsync after it failed (true); no writer results *)
 
 Record wstate := mkw { w_open : bool; w_buf : list entry; w_end : N; w_dirty : bool }.
 
@@ -103,6 +106,16 @@ Definition w_step_gen (fixed : bool) (nlen : N) (f : fs) (w : wstate) (a : api)
   | AOpen =>
       if w_open w then (w, [], false)
       else let '(w', ops) := open_file fixed nlen f in (w', ops, true)
+  | AOpenFail tr =>
+      if w_open w then (w, [], false)
+      else
+        match vol f with
+        | Some c =>
+            if fixed && tr && (pre_len nlen <=? clen c) && (good_len nlen c <? clen c)
+            then (w, [OTrunc (good_len nlen c)], false)
+            else (w, [], false)
+        | None => (w, [], false)
+        end
   | AWrite e fl =>
       if negb (w_open w) then (w, [], false)
       else
